@@ -14,6 +14,7 @@ func init() {
 	rt.Register("C14_ParseWrites", C14_ParseWrites)
 	rt.Register("C14_BuildWrites", C14_BuildWrites)
 	rt.Register("C17_Poly", C17_Poly)
+	rt.Register("C17_PolyLong", C17_PolyLong)
 }
 
 func outcome(v interface{}, err error) string {
@@ -172,6 +173,101 @@ func callsOn(g *Grammar, in []byte) (int, string) {
 		res = Render(node, e.base)
 	}
 	return e.ctx.CallCount(), res
+}
+
+// longWord is a word of length about n that the k-th family accepts (its last
+// byte is then replaced by a symbolic one).
+func longWord(k, n int) []byte {
+	var w []byte
+	rep := func(s string, times int) {
+		for i := 0; i < times; i++ {
+			w = append(w, s...)
+		}
+	}
+	switch k {
+	case 0: // P->Pb|a
+		w = append(w, 'a')
+		rep("b", n-1)
+	case 1: // E->ExT|T;T->TbF|F;F->a
+		w = append(w, 'a')
+		for i := 0; len(w)+2 <= n; i++ {
+			w = append(w, "xbb"[i%3], 'a')
+		}
+	case 2: // A->Bx|a;B->Ab|b
+		w = append(w, 'a')
+		rep("bx", (n-1)/2)
+	case 3: // P->x?Pb|a: without x the hidden left recursion is all there is.
+		// (With x the grammar is ambiguous: x^i a b^j has C(j,i) trees, and the
+		// property is about unambiguous grammars.)
+		w = append(w, 'a')
+		rep("b", n-1)
+	case 4: // P->aPb|eps
+		rep("a", n/2)
+		rep("b", n/2)
+	case 5: // sepby(a,x)
+		w = append(w, 'a')
+		rep("xa", (n-1)/2)
+	case 6: // P->aP|a
+		rep("a", n)
+	default: // five precedence levels with parentheses
+		for len(w)+6 <= n {
+			w = append(w, "(a)xa"...)
+			w = append(w, "xbcd"[len(w)%4])
+		}
+		w = append(w, 'a')
+	}
+	return w
+}
+
+// C17_PolyLong: the doubling clause on inputs of several hundred bytes: the
+// family's long word and its first half, last byte of each symbolic.
+func C17_PolyLong() {
+	fams := polyFamilies()
+	k := rt.Choose("grammar", len(fams))
+	g := fams[k]
+	rt.Note(g.Name)
+	n := rt.Param("L", 64)
+	in := longWord(k, n)
+	n = len(in)
+	alpha := g.Alphabet()
+	if g.InAlpha != nil {
+		alpha = g.InAlpha
+	}
+	sym := func(at int) {
+		in[at] = rt.Byte("in")
+		ok := false
+		for _, c := range alpha {
+			if in[at] == c {
+				ok = true
+			}
+		}
+		rt.Assume(ok)
+	}
+	sym(n - 1)
+	sym(n/2 - 1)
+	full, res := callsOn(g, in)
+	small, _ := callsOn(g, in[:n/2])
+	rt.ObsInt("n", n)
+	rt.ObsInt("calls-2n", full)
+	rt.ObsInt("calls-n", small)
+	if res != "error" {
+		rt.Cover("accepted long word")
+	}
+	if full > 16*small {
+		rt.Fail("long/doubling", g.Name+": "+itoa(small)+" calls for the first "+itoa(n/2)+" bytes, "+itoa(full)+" for all "+itoa(n))
+		return
+	}
+	bound := rt.Param("C", 1) * len(g.Rules) * (n + 1) * (n + 1) * (n + 1) * (n + 1)
+	if full > bound {
+		rt.Fail("long/polynomial-bound", g.Name+": "+itoa(full)+" calls for "+itoa(n)+" bytes")
+		return
+	}
+	again, res2 := callsOn(g, in)
+	if again != full || res2 != res {
+		rt.Fail("long/deterministic-count", g.Name+": "+itoa(full)+" vs "+itoa(again)+" calls")
+		return
+	}
+	rt.Assert(true, "long/polynomial")
 }
 
 // C17_Poly: parser invocations stay within a degree-4 polynomial of the input
